@@ -130,3 +130,45 @@ def run(repo: Repo, chk: Check) -> None:
         chk.ob('R-TABLE', q, 1 <= len(key.split('.')) <= 2 or key.startswith('proto.'), f'reachable key {key}', ci.loc,
                what='a key of 3+ components without protocol prefix is never produced by the variant generator')
     chk.note('registry', sorted(seen))
+
+    # ---- 4 registration: a class is filed under exactly the identifier(s) it declares - the lookup in from_errors compares the candidates with
+    #        the registered keys as they are, so any rewriting of the key at registration (case folding, stripping) makes that class unreachable
+    chk.set_clause('C27.4')
+    isub = repo.find_method(f'{NODE}.RpcError', '__init_subclass__')
+    chk.require(isub is not None, 'RpcError.__init_subclass__ not found')
+
+    class RegHooks(Hooks):
+        def __init__(self):
+            self.table: Dict[Any, Any] = {}
+
+        def inline(self, it, fi):
+            return fi.qualname == isub.qualname
+
+        def attr(self, it, obj, name, node):
+            if name == '__handlers__':
+                return self.table
+            return NotImplemented
+
+        def call(self, it, callee, args, kwargs, node):
+            from ..absint import Builtin
+            if isinstance(callee, Builtin) and callee.name == 'object.__init_subclass__':
+                return None
+            return NotImplemented
+
+        def isinstance(self, it, obj, classes):
+            from ..absint import Builtin
+            names = {c.name for c in classes if isinstance(c, Builtin)}
+            if isinstance(obj, Sym):
+                return 'str' in names
+            return NotImplemented
+
+    for label, given in (('a single identifier', Sym('id_a', 'str')), ('a list of two identifiers', [Sym('id_a', 'str'), Sym('id_b', 'str')])):
+        h = RegHooks()
+        sub = ClassRef(f'{NODE}.SomeError')
+        res = Interp(repo, h, max_depth=2).run_paths(lambda i, given=given: i.call_function(FuncRef(isub, sub, True), [], {'error_id': given}, None, force_inline=True))
+        want = [vrepr(x) for x in (given if isinstance(given, list) else [given])]
+        got = sorted(vrepr(k) for k in h.table)
+        ok = len(res) == 1 and res[0].outcome == 'return' and got == sorted(want) and all(isinstance(v, ClassRef) and v.qual == sub.qual for v in h.table.values())
+        chk.ob('R-FLOW', isub.qualname, ok, f'{label}: registered under exactly the declared identifier(s)', isub.loc, {'keys': got, 'declared': want},
+               what=f'a subclass declaring {want} is registered under {got}: identifiers that are not already in that form (mixed case, ...) can never be found by '
+                    'from_errors, which looks the candidates up as they are')
